@@ -10,7 +10,7 @@ Nothing is ever applied to /repo itself; the scratch worktree is removed at the 
 """
 import json, os, subprocess, sys, re, shutil
 ROOT = os.path.dirname(os.path.dirname(os.path.abspath(__file__)))
-WT = '/tmp/b-go2lean-scratch'
+WT = os.environ.get('GO2LEAN_SELFTEST_WT', '/tmp/go2lean-scratch-' + os.path.basename(ROOT))   # one scratch worktree of /repo per framework worktree
 
 def sh(cmd, **kw):
     p = subprocess.run(cmd, stdout=subprocess.PIPE, stderr=subprocess.STDOUT, text=True, **kw)
